@@ -231,6 +231,24 @@ def _gen_floordiv_regular(rng, D, P, tier):
     return [U(x), U(y)]
 
 
+def _gen_floordiv_array(rng, D, P, tier):
+    # element-wise x // y on arrays: the leading coefficient(s) of y (and x) vanish in SOME entries of SOME directions only
+    shape = tuple(rng.randint(1, 3) for _ in range(rng.randint(1, 2)))
+    x = rand_coeffs(rng, (D, P) + shape, -2, 2)
+    y = rand_coeffs(rng, (D, P) + shape, -2, 2)
+    y[0] = np.vectorize(lambda _: dyadic(rng, 0.5, 2.0))(np.zeros((P,) + shape))
+    if D >= 2:
+        for _ in range(rng.randint(1, 3)):
+            idx = tuple(rng.randrange(n) for n in (P,) + shape)
+            k = rng.randint(1, min(2, D - 1))
+            for d in range(k):
+                x[(d,) + idx] = 0.0
+                y[(d,) + idx] = 0.0
+            y[(k,) + idx] = dyadic(rng, 0.5, 2.0)
+    return [U(x), U(y)]
+
+
+op('floordiv:array', _gen_floordiv_array, lambda a: a[0] // a[1], None, tags=('arith', 'no-trunc'))
 op('floordiv:regular', _gen_floordiv_regular, lambda a: a[0] // a[1], lambda z: z[0] / z[1], tags=('arith',))
 
 
@@ -258,6 +276,28 @@ def _gen_mat(rng, D, P, tier, lo=1, hi=3):
     return rand_coeffs(rng, (D, P, rng.randint(lo, hi), rng.randint(lo, hi)), -2, 2)
 
 
+def _gen_distinct(rng, D, P, shape):
+    # base points pairwise distinct within every direction (no ties for max / argmax), different per direction
+    x = rand_coeffs(rng, (D, P) + shape, -2, 2)
+    n = int(np.prod(shape))
+    for p in range(P):
+        vals = rng.sample([k / 8.0 for k in range(-24, 25)], n)
+        x[0, p] = np.array(vals).reshape(shape)
+    return x
+
+
+op('max', lambda rng, D, P, t: [U(_gen_distinct(rng, D, P, (rng.randint(1, 5),)))], lambda a: UTPM.max(a[0]),
+   lambda z: np.max(z[0]), tags=('shape',))
+
+
+def _gen_maxmin(rng, D, P, tier):
+    shape = _shape(rng, tier)
+    both = _gen_distinct(rng, D, P, (2,) + tuple(shape))
+    return [U(np.ascontiguousarray(both[:, :, 0])), U(np.ascontiguousarray(both[:, :, 1]))]
+
+
+op('maximum', _gen_maxmin, lambda a: UTPM.maximum(a[0], a[1]), lambda z: np.maximum(z[0], z[1]), tags=('elementwise',))
+op('minimum', _gen_maxmin, lambda a: UTPM.minimum(a[0], a[1]), lambda z: np.minimum(z[0], z[1]), tags=('elementwise',))
 op('sum', lambda rng, D, P, t: [U(rand_coeffs(rng, (D, P) + tuple(rng.randint(1, 3) for _ in range(rng.randint(1, 3))), -2, 2))],
    lambda a: algopy.sum(a[0]), lambda z: np.sum(z[0]), tags=('shape',))
 
@@ -279,6 +319,11 @@ op('trace', lambda rng, D, P, t: [U(gen_square(rng, D, P, rng.randint(1, 3)) if 
 def _gen_reshape(rng, D, P, tier):
     s, t = rng.choice([((2, 3), (3, 2)), ((2, 3), (6,)), ((4,), (2, 2)), ((2, 2, 3), (4, 3)), ((3,), (3, 1))])
     return [U(rand_coeffs(rng, (D, P) + s, -2, 2)), Kp(list(t))]
+
+
+# multiplication by t^s (s >= 0): obeys the prefix and direction laws like every other Taylor operation
+op('shift:pos', lambda rng, D, P, t: [U(rand_coeffs(rng, (D, P) + _shape(rng, t), -2, 2)), Kp(rng.randint(0, D))],
+   lambda a: a[0].shift(a[1]), None, tags=('shape',))
 
 
 def _gen_fft_axis(rng, D, P, tier):
@@ -424,6 +469,15 @@ def _gen_eigh_mixed(rng, D, P, tier):
 
 
 # eigenvectors of a repeated eigenvalue are fixed by the higher coefficients: Q_0 legitimately depends on D and is not NumPy's choice
+def _eigh1_call(A):
+    r = algopy.eigh1(A)
+    return [r[0], r[1]] if isinstance(r, algopy.Function) else r[:2]      # traced: `L, Q, b = eigh1(A)` unpacks the node
+
+
+# the relaxed decomposition of level 1 (block diagonal L in the clusters of A_0); the third output (block boundaries) is not a polynomial
+op('eigh1', lambda rng, D, P, t: [U(gen_square(rng, D, P, rng.randint(1, 3), 'sym'))],
+   lambda a: _eigh1_call(a[0]), None, tags=('linalg', 'factor'))
+op('eigh1:mixed', _gen_eigh_mixed, lambda a: _eigh1_call(a[0]), None, tags=('linalg', 'factor'))
 op('eigh:mixed', _gen_eigh_mixed, lambda a: algopy.eigh(a[0]), None, tags=('linalg', 'factor', 'no-trunc'))
 op('symvec', lambda rng, D, P, t: [U(gen_square(rng, D, P, rng.randint(1, 3), 'spd'))],
    lambda a: algopy.symvec(a[0]), None, tags=('shape',))
